@@ -36,6 +36,7 @@ type Prog struct {
 	LoadNotes []string
 	objFn     map[types.Object]*ssa.Function
 	instIdx   map[*ssa.Function][]*callgraph.Node
+	accCache  map[*types.TypeName]bool
 }
 
 func goEnv() []string {
